@@ -408,6 +408,10 @@ is_incomplete() const {
  */
 bool CPPType::
 is_equivalent(const CPPType &other) const {
+  if (other.get_subtype() == ST_typedef && get_subtype() != ST_typedef) {
+    // A typedef is equivalent to the type it names, whichever side it is on.
+    return other.is_equivalent(*this);
+  }
   if (get_subtype() != other.get_subtype()) {
     return false;
   }
